@@ -340,7 +340,7 @@ def worker(job):
 def main(chk, tier, seed):
     chk.rule = RULE
     chk.assumptions = ["oracle = enumeration over harness-owned tables", "integers are kept below 2^53 where the code stores them in float64 matrices (projection)"]
-    n = 12000 if tier == "quick" else 120000
+    n = 12000 if tier == "quick" else 480000
     common.run_chunked(chk, "c06", n, nchunks=16 if tier == "quick" else 64, timeout=3000)
     calls = chk.extra.get("helper_calls", {})
     for h in ("find_arg_optimal", "find_optimal", "optimal_cost_value", "projection"):
